@@ -1143,6 +1143,10 @@ impl SctpInner {
                 Duration::from_secs(3600)
             };
 
+            #[cfg(rustrtc_verif)]
+            crate::verif_hooks::sctp::trace(self.local_port, || {
+                crate::verif_hooks::sctp::Ev::Mark("loop", vec![])
+            });
             // 4. Delayed-SACK timeout (RFC 4960 §6.2.1)
             let sack_timeout = self.sack_delay_timeout(now);
             // If a delayed SACK has already matured, flush it now so transmit()
@@ -10559,7 +10563,7 @@ impl SctpTransport {
                 .outbound_queue
                 .lock()
                 .iter()
-                .map(|c| (c.stream_id, c.ssn, c.flags, c.payload.len()))
+                .map(|c| (c.stream_id, c.ssn, c.flags, c.ppid, c.payload.to_vec()))
                 .collect(),
             received_queue: i.received_queue.lock().keys().cloned().collect(),
             inbound_streams: {
@@ -10611,8 +10615,8 @@ pub mod verif {
         pub used_rwnd: usize,
         pub queued_bytes: usize,
         pub sent_queue: Vec<VRecord>,
-        /// (stream, ssn, flags, payload length) of chunks not yet given a TSN
-        pub outbound_queue: Vec<(u16, u16, u8, usize)>,
+        /// (stream, ssn, flags, ppid, payload) of chunks not yet given a TSN
+        pub outbound_queue: Vec<(u16, u16, u8, u32, Vec<u8>)>,
         pub received_queue: Vec<u32>,
         /// (stream, next_ssn, pending ssns)
         pub inbound_streams: Vec<(u16, u16, Vec<u16>)>,
